@@ -10,15 +10,17 @@ from rules import C15
 
 def c04a(ctx, tu):
     """is_unfulfilled == !reported && linked && !satisfied"""
-    for fn in tu.need(A["is_unfulfilled"], 3):
+    rfield, rval = lib.reported_role(tu)
+    # (the predicate may have been merged into the emitters: then C04.b, which interprets the emitters, decides alone)
+    for fn in tu.find(A["is_unfulfilled"]):
         try:
             bad = None
             for v in product({"reported": [False, True], "linked": [False, True], "satisfied": [False, True]}):
                 o = Oracle(calls={"trompeloeil::list_elem::is_linked": v["linked"],
                                   "std::unique_ptr::operator->": ("ptr", ("obj", "handler")),
                                   A["is_satisfied"]: v["satisfied"]},
-                           members={"trompeloeil::call_matcher::reported": v["reported"],
-                                    "trompeloeil::call_matcher::sequences": ("obj", "sequences")})
+                           members={rfield: rval if v["reported"] else (not rval),
+                                    "trompeloeil::call_matcher::sequences": ("obj", "sequences")}).descend_into(tu)
                 r = bool(ret_value(fn, o))
                 want = (not v["reported"]) and v["linked"] and (not v["satisfied"])
                 if r != want:
@@ -35,6 +37,7 @@ def c04b(ctx, tu):
     the emitter's CFG is interpreted on all 8 valuations of the atoms and the call of report_missed is
     observed - insensitive to whether the guard is the helper is_unfulfilled() or spelled out inline."""
     from engine.table import Interp
+    rfield, rval = lib.reported_role(tu)
     for name in (A["dtor_call_matcher"], A["mock_destroyed"]):
         for fn in tu.need(name, 3):
             try:
@@ -45,11 +48,14 @@ def c04b(ctx, tu):
                         seen.append("report_missed")
                         return None
                     want = (not v["reported"]) and v["linked"] and (not v["satisfied"])
-                    calls = {A["report_missed"]: rm, A["is_unfulfilled"]: want,
+                    # the emission is observed at report_missed or, when that has been merged away, at the
+                    # report_unfulfilled call it makes; the guard is interpreted from its own body wherever it lives
+                    calls = {A["report_missed"]: rm, A["report_unfulfilled"]: rm,
                              "trompeloeil::list_elem::is_linked": v["linked"], A["is_satisfied"]: v["satisfied"],
                              "std::unique_ptr::operator->": ("ptr", ("obj", "handler"))}
-                    base = Oracle(calls=calls, members={"trompeloeil::call_matcher::reported": v["reported"],
-                                                        "trompeloeil::call_matcher::sequences": ("obj", "sequences")})
+                    base = Oracle(calls=calls, members={rfield: rval if v["reported"] else (not rval),
+                                                        "trompeloeil::call_matcher::sequences": ("obj", "sequences")},
+                                  any_member=True).descend_into(tu)
                     def oracle(kind, t, it, base=base):
                         try:
                             return base(kind, t, it)
@@ -81,9 +87,9 @@ def c04c(ctx, tu):
     non-fatal send with the expectation's loc; ingredients flow from name / val / min / count."""
     def classify(fn, ev, env):
         if ev["e"] == "assign":
-            lhs = lib.strip_casts(ev.get("lhs"))
-            if isinstance(lhs, list) and lhs[:1] == ["member"] and erase(lhs[1]) == "trompeloeil::call_matcher::reported":
-                return ("sym", "set_reported" if ev.get("rhs") == ["bool", True] else "clear_reported")
+            r = lib.is_set_reported(tu, ev)
+            if r is not None:
+                return ("sym", "set_reported" if r else "clear_reported")
             return None
         if ev["e"] != "call":
             return None
@@ -104,8 +110,8 @@ def c04c(ctx, tu):
             return (rep, min(n + 1, 2))
         return None
 
-    for fn in tu.need(A["report_missed"], 3):
-        ex = Explorer(tu, classify, delta=delta)
+    ex = Explorer(tu, classify, delta=delta)
+    for fn in tu.find(A["report_missed"]):
         exits, terms = ex.explore(fn, (False, 0))
         bad = None
         for (rep, n), tr in exits.items():
@@ -115,6 +121,24 @@ def c04c(ctx, tu):
                 bad = "a missed expectation produces %d end-of-life reports" % n
         ctx.ob("C04.c", A["report_missed"], bad is None, pattern=fn.pat, unit=tu.name, inst=fn.q,
                detail="" if bad is None else bad)
+    # the same, stated on the two lifetime ends themselves (holds wherever the emission code lives): every path that
+    # emits the report marks the expectation, and no path emits twice
+    n_emit = 0
+    for name in (A["dtor_call_matcher"], A["mock_destroyed"]):
+        for fn in tu.need(name, 3):
+            exits, terms = ex.explore(fn, (False, 0))
+            bad = None
+            for (rep, n), tr in exits.items():
+                if n >= 1:
+                    n_emit += 1
+                if n >= 1 and rep is not True:
+                    bad = "the expectation is not marked as reported on a path that reports its shortfall"
+                elif n > 1:
+                    bad = "a missed expectation produces %d end-of-life reports" % n
+            ctx.ob("C04.c", name, bad is None, pattern=fn.pat, unit=tu.name, inst=fn.q, detail="" if bad is None else bad)
+    if n_emit == 0:
+        ctx.ob("C04.c", "end-of-life emitters", None, unit=tu.name, detail="no path of the lifetime ends emits a report")
+    for fn in [f for nm in (A["report_missed"], A["dtor_call_matcher"], A["mock_destroyed"]) for f in tu.find(nm)]:
         # ingredients
         calls = [e for b, e in fn.events() if e["e"] == "call" and qe(e) == A["report_unfulfilled"]]
         if len(calls) == 1:
@@ -142,7 +166,7 @@ def c04c(ctx, tu):
 def c04d(ctx, tu):
     """who may call the emitters"""
     allowed = {A["report_missed"]: {A["dtor_call_matcher"], A["mock_destroyed"]},
-               A["report_unfulfilled"]: {A["report_missed"]}}
+               A["report_unfulfilled"]: {A["report_missed"], A["dtor_call_matcher"], A["mock_destroyed"]}}
     for f in tu.fns.values():
         if not f.has_body or not f.is_lib:
             continue
@@ -230,16 +254,18 @@ def c04g(ctx, tu):
     its report is fatal and about the call; see DESIGN.md (F16, judged not a defect)."""
     for name in ("trompeloeil::call_matcher::report_mismatch",):
         for fn in tu.need(name, 3):
-            sets = cfg.find_events(fn, lambda e: e["e"] == "assign" and "reported" in str(e.get("lhs"))
-                                   and e.get("rhs") == ["bool", True])
+            sets = cfg.find_events(fn, lambda e: lib.is_set_reported(tu, e) is True)
             ok = bool(sets) and fn.exit not in cfg.reach(fn, fn.entry, avoid_blocks=set(b for b, _, _ in sets))
             ctx.ob("C04.g", name, ok, pattern=fn.pat, unit=tu.name, inst=fn.q,
                    detail="" if ok else "an expectation listed in a no-match report must be marked as reported, "
                    "otherwise its shortfall is reported a second time at end of life")
     for fn in tu.need(A["run_actions"], 3):
         rf = cfg.find_events(fn, lambda e: e["e"] == "call" and qe(e) == A["report_forbidden_call"])
-        sets = cfg.find_events(fn, lambda e: e["e"] == "assign" and "reported" in str(e.get("lhs"))
-                               and e.get("rhs") == ["bool", True])
+        if not rf:
+            # the helper may have been merged into run_actions: the fatal report on the is_forbidden() branch
+            rf = [(b, i, e) for b, i, e in cfg.find_events(fn, lambda e: e["e"] == "call" and qe(e) in (A["send_report"], A["send"]))
+                  if lib.severity_of(e["args"][0], {}) == "fatal"]
+        sets = cfg.find_events(fn, lambda e: lib.is_set_reported(tu, e) is True)
         ok = bool(rf) and all(any(sb == rb and si < ri for sb, si, _ in sets) or
                               any(cfg.block_dominates(fn, sb, rb) and sb != rb for sb, si, _ in sets)
                               for rb, ri, _ in rf)
